@@ -9,8 +9,10 @@ Driver for C18 (model at `Float`).  One request line = one self-contained histor
     step = new <arg>* | set <field> <arg> | upd <n> <f64>*n
 
 Reply `= <stepreply> | <stepreply> | …` with
-  <panicked 0|1> -                                          (no object yet)
-  <panicked 0|1> S <state> O <obs> D <draws> R <draws> T <twin>
+  <panicked 0|1> C <c> -                                    (no object yet)
+  <panicked 0|1> C <c> S <state> O <obs> D <draws> R <draws> T <twin>
+  <c> = 1 | 0 | -   would the constructor accept the parameter list a `set` / `upd` produces?
+  draws = `N` when some number of the record is NaN (not sampled: rejection loops need not terminate)
   <twin> = X | S <state> O <obs> D <draws>                  (`new(current parameters)`)
 exactly as `exec/src/bin/c18.rs` (see there).  The model has no other objects and no global generator, so its
 `R` stream is by construction its `D` stream.
@@ -78,7 +80,12 @@ def showOptF : Option Float → String
 def showObs (d : Dist Float) (probes : List Probe) : String :=
   " ".intercalate ((probes.map fun p => showOptF (densityD d p)) ++ [showOptF (meanD d), showOptF (varD d)])
 
+def argIsNaN : Arg Float → Bool
+  | .real x => x.isNaN
+  | .int _ => false
+
 def showDraws (d : Dist Float) (seed : UInt64) : String :=
+  if d.flat.any argIsNaN then "N" else
   match drawsD c18Fuel c18IFuel d seed c18Draws with
   | some xs => showFloats xs
   | none => "X"
@@ -105,11 +112,18 @@ def runSteps (k : Kind) (sig : List Ty) (probes : List Probe) (seed : UInt64) :
   | 0, _, acc => pure acc.reverse
   | n + 1, obj, acc => do
     let op ← pOp sig
+    let c : String := match obj, op with
+      | some d, .set i a => showBool (newD k (d.params.set i a)).isSome
+      | some _, .update ps =>
+        (match castArgs k ps with
+         | some args => showBool (newD (α := Float) k args).isSome
+         | none => "-")
+      | _, _ => "-"
     let (obj, p) := sessionStep k obj op
     let body := match obj with
       | none => "-"
       | some d => observe d probes seed
-    runSteps k sig probes seed n obj (s!"{showBool p} {body}" :: acc)
+    runSteps k sig probes seed n obj (s!"{showBool p} C {c} {body}" :: acc)
 
 def c18Step (args : List String) : String :=
   match args with
